@@ -110,11 +110,11 @@ impl<S: Read + Write> HandshakeRole for ClientHandshake<S> {
 /// Verifies and generates a client WebSocket request from the original request and extracts a WebSocket key from it.
 pub fn generate_request(mut request: Request) -> Result<(Vec<u8>, String)> {
     let mut req = Vec::new();
+    // The opening handshake is an HTTP/1.1 exchange whatever (newer) version the request object carries.
     write!(
         req,
-        "GET {path} {version:?}\r\n",
+        "GET {path} HTTP/1.1\r\n",
         path = request.uri().path_and_query().ok_or(Error::Url(UrlError::NoPathOrQuery))?.as_str(),
-        version = request.version()
     )
     .unwrap();
 
